@@ -142,13 +142,13 @@ def r1_r2(ctx) -> None:
                "an unaligned point keeps its own value (the parameter is returned unless it was replaced by a target point)")
 
 
-def r3(ctx) -> None:
+def r3(ctx, rule: str = "C09-R3") -> None:
     repo = ctx.repo
     fi = ctx.fn(DAT, "DataProviderLinked.create_aligned_global_axes")
     fl = lib.flow(fi, repo)
     cfg = fl.cfg
     rs = [r for r in lib.raises(fi) if (lib.raised_name(repo, fi, r) or "").endswith("AlignDatasetError")]
-    if not ctx.ob("C09-R3", "create_aligned_global_axes/raises", bool(rs), fi, rs[0] if rs else fi.node,
+    if not ctx.ob(rule, "create_aligned_global_axes/raises", bool(rs), fi, rs[0] if rs else fi.node,
                   "an ambiguous alignment raises AlignDatasetError", construct=lib.short(rs[0]) if rs else "def"):
         return
     guard = None
@@ -159,7 +159,7 @@ def r3(ctx) -> None:
     t = norm(guard.test) if guard is not None else ""
     ok_test = guard is not None and "np.unique(" in t and "len(" in t and any(isinstance(c, ast.Compare) and isinstance(c.ops[0], (ast.NotEq, ast.Lt, ast.Gt))
                                                                          for c in ast.walk(guard.test))
-    ctx.ob("C09-R3", "create_aligned_global_axes/ambiguity-test", ok_test, fi, guard or fi.node,
+    ctx.ob(rule, "create_aligned_global_axes/ambiguity-test", ok_test, fi, guard or fi.node,
            "ambiguity = two points of one dataset mapped to the same aligned value (fewer unique values than points)",
            construct="if " + t)
     acc = None
@@ -171,17 +171,17 @@ def r3(ctx) -> None:
         if isinstance(c.func, ast.Attribute) and c.func.attr == "align_index" and len(c.args) >= 2 and isinstance(c.args[1], ast.Name):
             acc_name = c.args[1].id
     if acc_name is None:
-        ctx.ob("C09-R3", "create_aligned_global_axes/accumulator", False, fi, fi.node, "cannot find the accumulated axis", construct="def")
+        ctx.ob(rule, "create_aligned_global_axes/accumulator", False, fi, fi.node, "cannot find the accumulated axis", construct="def")
         return
     updates = [d for d in fl.defs_of(acc_name) if d.kind == "assign" and not (isinstance(d.value, ast.Constant) and d.value.value is None)]
-    ctx.sites("C09-R3", "updates of the accumulated axis", len(updates), 2)
+    ctx.sites(rule, "updates of the accumulated axis", len(updates), 2)
     n_checked = 0
     for d in updates:
         v = fl.inline(d.value, d.stmt)  # temporaries looked through
         is_merge = isinstance(v, ast.Call) and norm(v.func) in ("np.unique", "numpy.unique")
         if is_merge:
             n_checked += 1
-            ctx.ob("C09-R3", "create_aligned_global_axes/refusal-first", guard is not None and cfg.dominates(guard, d.stmt)
+            ctx.ob(rule, "create_aligned_global_axes/refusal-first", guard is not None and cfg.dominates(guard, d.stmt)
                    and lib.stmt_of(guard).lineno < d.stmt.lineno, fi, d.stmt,
                    "the ambiguity test must dominate the merge of a dataset's aligned points into the accumulated axis")
             inner = v.args[0] if v.args else None
@@ -197,41 +197,41 @@ def r3(ctx) -> None:
                         dd.kind == "assign" and isinstance(dd.value, ast.ListComp) and "align_index" in norm(dd.value)
                         for dd in fl.reaching(others[0].id, d.stmt)) and all(
                         dd.kind == "assign" and isinstance(dd.value, ast.ListComp) for dd in fl.reaching(others[0].id, d.stmt))))
-                ctx.ob("C09-R3", "create_aligned_global_axes/merges-aligned-points", aligned_ok, fi, d.stmt,
+                ctx.ob(rule, "create_aligned_global_axes/merges-aligned-points", aligned_ok, fi, d.stmt,
                        "the accumulated axis is extended by the dataset's *aligned* points; merging the original axis leaves the "
                        "old coordinate of every moved point behind as a ghost target for later datasets")
-            ctx.ob("C09-R3", "create_aligned_global_axes/merge-sorted-unique", ok, fi, d.stmt,
+            ctx.ob(rule, "create_aligned_global_axes/merge-sorted-unique", ok, fi, d.stmt,
                    "the accumulated axis is np.unique(concatenate([old axis, aligned points])): strictly increasing, no duplicates")
         else:
             # first dataset: the axis itself, taken only when nothing was accumulated yet
             def none_test(test, pol, at):
                 tt = norm(test)
                 return pol and tt in (f"{acc_name} is None",) or (not pol and tt == f"{acc_name} is not None")
-            ctx.ob("C09-R3", "create_aligned_global_axes/first-dataset-defines-axis", lib.guarded_by(fl, d.stmt, none_test) is not None, fi, d.stmt,
+            ctx.ob(rule, "create_aligned_global_axes/first-dataset-defines-axis", lib.guarded_by(fl, d.stmt, none_test) is not None, fi, d.stmt,
                    "only the first dataset initialises the accumulated axis")
     sts = [(t, s_) for t, s_ in lib.stores(fi) if isinstance(t, ast.Subscript) and norm(t.value) == "aligned_global_axes"]
-    ctx.sites('C09-R3', "sites iterated at rules/c09.py:213 (sts)", len(sts), 1)
+    ctx.sites(rule, "sites iterated at rules/c09.py:213 (sts)", len(sts), 1)
     for t, s_ in sts:
         v = s_.value
         okv = isinstance(v, ast.Name) and any(dd.kind == "assign" and isinstance(dd.value, ast.ListComp) and "align_index" in norm(dd.value)
                                               for dd in fl.reaching(v.id, s_))
-        ctx.ob("C09-R3", "create_aligned_global_axes/stores-aligned-axis", okv, fi, s_,
+        ctx.ob(rule, "create_aligned_global_axes/stores-aligned-axis", okv, fi, s_,
                "the axis recorded for a dataset is its aligned axis (own axis for the first dataset)")
-    ctx.ob("C09-R3", "create_aligned_global_axes/merge-present", n_checked >= 1, fi, fi.node, "later datasets are merged into the accumulated axis",
+    ctx.ob(rule, "create_aligned_global_axes/merge-present", n_checked >= 1, fi, fi.node, "later datasets are merged into the accumulated axis",
            construct="aligned_axis_values = np.unique(np.concatenate([...]))")
     # every point of every later dataset goes through align_index with the scheme's tolerance and method
     for c in lib.calls(fi):
         if isinstance(c.func, ast.Attribute) and c.func.attr == "align_index":
             args = [norm(a) for a in c.args]
             ok = len(args) == 4 and args[2].endswith("clp_link_tolerance") and args[3].endswith("clp_link_method")
-            ctx.ob("C09-R3", "create_aligned_global_axes/uses-scheme-settings", ok, fi, lib.stmt_of(c),
+            ctx.ob(rule, "create_aligned_global_axes/uses-scheme-settings", ok, fi, lib.stmt_of(c),
                    "align_index(value, accumulated axis, scheme.clp_link_tolerance, scheme.clp_link_method)")
             comp = None
             for a in lib.ancestors(c, fi.node):
                 if isinstance(a, ast.ListComp):
                     comp = a
             ok2 = comp is not None and not comp.generators[0].ifs and len(comp.generators) == 1 and norm(comp.generators[0].target) == args[0]
-            ctx.ob("C09-R3", "create_aligned_global_axes/every-point-once", ok2, fi, lib.stmt_of(c),
+            ctx.ob(rule, "create_aligned_global_axes/every-point-once", ok2, fi, lib.stmt_of(c),
                    "every point of the dataset's global axis is aligned exactly once (unfiltered comprehension over the axis)")
 
 
@@ -323,12 +323,33 @@ def r4(ctx, rule: str = "C09-R4") -> None:
         d.kind == "assign" and norm(d.value) == "self._data_provider.get_global_axis(dataset_label)" for d in fl.defs_of("global_axis"))
     ctx.ob(rule, "get_result/original-coordinates", ok, gr, coords[0] if coords else gr.node,
            "results are reported on the dataset's original global axis, not on the aligned one")
+    # ... in the order of that axis: the per-index results are collected along the (sorted) aligned axis and must be
+    # brought back into the order of the dataset's own points before its axis is attached
+    pos_apps = [c for c in lib.method_calls(gr, "append") if "get_aligned_dataset_indices(index)[dataset_index]" in norm(c.args[0]).replace(" ", "")] \
+        if True else []
+    pos_var = norm(pos_apps[0].func.value) if pos_apps else None
+    perms = [d for d in fl.defs_of("original_order") if d.kind == "assign"] if pos_var else []
+    order_vars = {d.var for v_ in {n.id for n in ast.walk(gr.node) if isinstance(n, ast.Name)} for d in fl.defs_of(v_)
+                  if d.kind == "assign" and d.value is not None and pos_var and norm(d.value) in (f"np.argsort({pos_var})", f"np.argsort(np.asarray({pos_var}))")}
+    reordered = set()
+    for v_ in ("dataset_clps", "dataset_residual"):
+        for d in fl.defs_of(v_):
+            if d.kind == "assign" and isinstance(d.value, ast.ListComp) and len(d.value.generators) == 1:
+                g_ = d.value.generators[0]
+                if norm(g_.iter) in order_vars and norm(d.value.elt) == f"{v_}[{norm(g_.target)}]":
+                    reordered.add(v_)
+    ctx.ob(rule, "get_result/dataset-order-restored", reordered == {"dataset_clps", "dataset_residual"}, gr, gr.node,
+           "clps and residuals collected along the sorted aligned axis are permuted back (argsort of the dataset's own positions "
+           "get_aligned_dataset_indices(index)[dataset_index]) before the dataset's axis is attached: otherwise a dataset whose axis is not "
+           "ascending gets its results under the wrong coordinates", [f"positions: {pos_var}", f"order variables: {sorted(order_vars)}", f"re-ordered: {sorted(reordered)}"])
+    _ = perms
 
 
 def r5(ctx) -> None:
     """The alignment settings given by the user are the ones the alignment uses; automatic linking needs one common global dimension."""
     lib.check_option_forwarding(ctx, "C09-R5", ("clp_link_tolerance", "clp_link_method"), 2)
     lib.check_linkable_requires_one_global_dimension(ctx, "C09-R5")
+    lib.check_refusal_not_swallowed(ctx, "C09-R5", "AlignDatasetError", ("DataProviderLinked",), ("glotaran/optimization/", "glotaran/project/", "glotaran/simulation/"))
 
 
 def check(ctx) -> None:
